@@ -10,7 +10,8 @@ What is modelled (one atomic step per line of the list; anchors in the repositor
   appends its working copy as the new latest disk, `closeTx t false` drops it.  After `closeTx` the
   transaction's bucket handle is dead.
 * cache manager (shard/cache/manager.go, at interface level): `access t n` is the entry of
-  `Transaction.With(n, …)` *including* the `UpdateBucket(bucket)` every callback starts with
+  `Transaction.With(n, …)` (`accessCold t n`: its fall-back to a temporary cold object, see
+  `stepAccessCold`) *including* the `UpdateBucket(bucket)` every callback starts with
   (shard/index/search.go, dispatch.go): a reader gets the shared object of the manager map when it
   is not write-held (`TryRLock`), else a private cold object; when the map has no object the caller
   creates one, which goes into the map unless the shared cache is disabled (`maxSize = 0`); a writer
@@ -125,6 +126,7 @@ inductive Label
   | beginR (t : TxId)
   | beginW (t : TxId)
   | access (t : TxId) (n : Name)
+  | accessCold (t : TxId) (n : Name)
   | leave (t : TxId) (n : Name)
   | read (t : TxId) (n : Name) (i : Item)
   | wr (t : TxId) (op : Op)
@@ -193,6 +195,23 @@ def stepAccess (s : State) (t : TxId) (n : Name) : Option State :=
             -- `TryRLock` fails: private cold object
             some (giveFresh s t tx n false)
           else some (withAccess s t tx n o (takeShared t tx ob) s.nextObj s.map)
+
+/-- `With` sends the caller to a TEMPORARY cold object that nobody else will ever see: the object it had
+looked up and locked turned out to be scrapped by the rolled-back transaction that held it before
+(manager.go, `cacheToUse.scrapped` → `createFn()`), or a reader's `TryRLock` failed.  The model lets a
+reader do this at any moment (a private cold object only ever shows the reader its own snapshot); a
+writer only while the manager has no entry for the name - which is the case when the entry was scrapped,
+because `Commit` of the failed holder drops it from the map in the same critical section.  (A writer
+on a temporary object while ANOTHER object is registered under the name would leave that object
+without its batch: notes/C09.md, F6.) -/
+def stepAccessCold (s : State) (t : TxId) (n : Name) : Option State :=
+  match s.txs t with
+  | none => none
+  | some tx =>
+    if tx.isOpen = false then none
+    else if (tx.cur n).isSome then none
+    else if tx.isWrite = true ∧ (s.map n).isSome = true then none
+    else some (giveFresh s t tx n false)
 
 /-- a reader's `With` returns (`RUnlock`) -/
 def stepLeave (s : State) (t : TxId) (n : Name) : Option State :=
@@ -321,6 +340,7 @@ def step (s : State) : Label → Option State
   | .beginR t => stepBeginR s t
   | .beginW t => stepBeginW s t
   | .access t n => stepAccess s t n
+  | .accessCold t n => stepAccessCold s t n
   | .leave t n => stepLeave s t n
   | .read t n i => stepRead s t n i
   | .wr t op => stepWr s t op
@@ -360,6 +380,7 @@ def mayAccess (s : State) (t : TxId) (n : Name) : Bool :=
 def stepNO (s : State) (l : Label) : Option State :=
   match l with
   | .access t n => if mayAccess s t n then step s l else none
+  | .accessCold t n => if mayAccess s t n then step s l else none
   | .evict _ => step s l
   | _ => step s l
 
